@@ -58,6 +58,16 @@ def run(tier, vd):
     r4b["viol"] = [v for v in r4["viol"] if v["rule"] in ("K2", "PANIC")]
     report_viols(vd, "C08", r4b, {"world": "neigh", "seed": sd}, lambda v: {"rule": v["rule"], "world": "neigh"}, lambda v: "neigh %s %s" % (v["rule"], v["p"]))
 
+    # K3 on the DHCP client's own ingress path (it does not go through the UDP socket layer): replies damaged in transit
+    # must not configure anything -- DhcpTrace H1 (a configuration only from an ACK that is valid, checksum included)
+    from checks import c18
+    dfz = c18.dhcp_traces("quick", sd, "c08")[:2]
+    r5 = validate_traces("DhcpTrace", dfz, parallel=4)
+    vd.add_validation(r5)
+    r5b = dict(r5)
+    r5b["viol"] = [v for v in r5["viol"] if v["rule"] in ("H1", "PANIC")]
+    report_viols(vd, "C08", r5b, {"world": "dhcp", "seed": sd}, lambda v: {"rule": v["rule"], "world": "dhcp"}, lambda v: "dhcp %s %s" % (v["rule"], v["p"]))
+
     def mut(e):
         if e.get("ev") == "csum" and e.get("len", 0) > 3:
             e["res"] = (e["res"] + 1) % 65536
@@ -79,5 +89,8 @@ def replay(obj, vd):
         c12.replay(obj, vd)
     elif w == "neigh":
         netcommon.replay(obj, vd, "C08")
+    elif w == "dhcp":
+        from checks import c18
+        c18.replay(obj, vd)
     else:
         raise ToolError("re-run bin/check C08 (checksum vectors are regenerated deterministically from the seed)")
